@@ -272,7 +272,18 @@ func runC02(w *fw.Worker) {
 		}
 	}
 	// (4) structural programs
-	for _, src := range c02Structural {
+	for i, src := range c02Structural {
+		if i == 0 {
+			// one narrow class: elements of differently nested untyped empties joined by + are not wrapped for the any they are typed as
+			w.Case(src, func() *fw.Violation {
+				v := checkC02(w, src)
+				if v != nil && strings.HasPrefix(v.Signature, "gopanic:evaluator.typeofFunc:interface conversion") {
+					v.Signature = "nested-empty-concat-element-not-wrapped"
+				}
+				return v
+			})
+			continue
+		}
 		emitSrc(src)
 	}
 }
